@@ -40,3 +40,21 @@ package common
 //@   requires blen(S) == 32 && blen(V) == 32 && crypto.ValidPointBytes(S) && crypto.ValidPointBytes(V)
 //@   ensures [accepted] AddrAccepts(AddrString(S, V))
 //@   ensures [same-keys] let t == AddrString(S, V) in sub(base58.DecodeOf(t[3:]), 0, 32) == S && sub(base58.DecodeOf(t[3:]), 32, 64) == V
+
+// ───────────── JSON form of an address: the quoted printed form ─────────────
+//@ func (a Address) MarshalJSON
+//@   property C32
+//@   modifies nothing
+//@   ensures [json] err == nil && bytestr(result0) == crypto.QuoteOf(AddrString(seq(a.PublicSpendKey), seq(a.PublicViewKey)))
+
+//@ -- accepts exactly the quoted strings whose content NewAddressFromString accepts; the four keys are then overwritten with the
+//@ -- parsed public keys and zero private keys; on error the receiver is unchanged
+//@ func (a *Address) UnmarshalJSON(b)
+//@   property C32
+//@   requires a != nil
+//@   modifies a.PrivateSpendKey, a.PrivateViewKey, a.PublicSpendKey, a.PublicViewKey
+//@   ensures [accept-iff] err == nil <==> crypto.UnquoteOK(old(bytestr(b))) && AddrAccepts(crypto.UnquoteOf(old(bytestr(b))))
+//@   ensures [keys] err == nil ==> seq(a.PublicSpendKey) == sub(base58.DecodeOf(crypto.UnquoteOf(old(bytestr(b)))[3:]), 0, 32) &&
+//@     seq(a.PublicViewKey) == sub(base58.DecodeOf(crypto.UnquoteOf(old(bytestr(b)))[3:]), 32, 64)
+//@   ensures [no-private-keys] err == nil ==> !a.PrivateSpendKey.HasValue() && !a.PrivateViewKey.HasValue()
+//@   ensures [unchanged-on-error] err != nil ==> *a == old(*a)
